@@ -180,9 +180,9 @@ def prHandle : List Sexp → Option Sexp
       some (.list [rSexp 64 (FromDict.fromDict kvs), jSexp 64 (.dict (FromDict.asDict (FromDict.fromDict kvs)))])
     | _ => none
   | [.atom "prshare", .str kind, .str probe] => (PRHeap.sharing kind probe).map ofBool
-  | [.atom "prdeepshare", d] => do
+  | [.atom "prdeepshare", .str kind, d] => do
       let n ← d.int?
-      if n < 1 ∨ n > 12 then none else pure (.list ((PRHeap.deepShare n.toNat).map ofBool))
+      if n < 1 ∨ n > 12 then none else (PRHeap.deepShare kind n.toNat).map (fun bs => .list (bs.map ofBool))
   | [.atom "prhist", st, .list ops] => do
       let ops ← ops.mapM op?
       match ← start? 64 st with
